@@ -42,6 +42,12 @@ Theorem C20_extract_listed :
 Proof. exact extract_listed. Qed.
 Print Assumptions C20_extract_listed.
 
+(* ... and is refused (ReadError), never returned short, when the archive ends before that range does. *)
+Theorem C20_extract_short :
+  forall f t, has_data (t_type t) = true -> 0 < t_size t -> blen f < t_data t + t_size t -> extract f t = Raises.
+Proof. exact extract_short. Qed.
+Print Assumptions C20_extract_short.
+
 (* A member with a recorded data offset extracts to file[offset, offset + size), wherever that is. *)
 Theorem C20_extract_stored_away :
   forall a1 m a2 rest,
